@@ -57,6 +57,7 @@ class FloatTok:
 
 FLOAT_TEXTS = ['1.5', '-0.25', '2.0', '1e100', '1.0e-7', '.inf', '-.inf', '.nan', '123456789.125', '0.1']
 FLOATS = []
+FLOAT_POOL_FAILURES = []
 
 
 def init_floats():
@@ -70,11 +71,26 @@ def init_floats():
     for i, t in enumerate(FLOAT_TEXTS):
         o = out['f%d' % i].split(' ')
         if o[0] != 'ok':
-            raise SystemExit('invalid run: float pool entry %r: %s' % (t, out['f%d' % i]))
+            # the implementation cannot produce the text / JSON form of this float (panic, error):
+            # reported by the caller; the entry is left out of the pool
+            FLOAT_POOL_FAILURES.append({'text': t, 'line': lines[i], 'outcome': out['f%d' % i]})
+            continue
         kind, ytext = o[3], unhx(o[4])
         jt = unhx(o[5][1:])          # "-[<json>]"
         assert jt.startswith('-[') and jt.endswith(']'), jt
         jtext = jt[2:-1]
+        # independent reading of what the implementation reports: a finite float keeps its value in both text
+        # forms, NaN and the infinities are written as JSON strings of their YAML text (JSON has no such numbers)
+        try:
+            if t in ('.inf', '-.inf', '.nan'):
+                sane = jtext == '"%s"' % ytext and ytext.lstrip('-+').lower() in ('.inf', '.nan')
+            else:
+                sane = float(jtext) == float(t) and float(ytext) == float(t)
+        except ValueError:
+            sane = False
+        if not sane:
+            FLOAT_POOL_FAILURES.append({'text': t, 'line': lines[i], 'outcome': out['f%d' % i]})
+            continue
         toks.append(FloatTok(kind, ytext, jtext))
     FLOATS = toks
 
